@@ -109,11 +109,16 @@ class _Subst(ast.NodeTransformer):
         return n
 
 
-def _atomic(e):
+def _atomic(e, deep=True):
+    """an access path: evaluating it twice (or later) gives the same object as evaluating it once, as long as nothing in between rebinds it"""
     if isinstance(e, (ast.Name, ast.Constant)):
         return True
     if isinstance(e, ast.Attribute):
         return _atomic(e.value)
+    if isinstance(e, ast.Subscript) and not isinstance(e.slice, ast.Slice):
+        return deep and _atomic(e.value) and _atomic(e.slice)
+    if isinstance(e, ast.UnaryOp) and isinstance(e.op, ast.USub) and isinstance(e.operand, ast.Constant):
+        return True
     if isinstance(e, ast.Lambda):
         return True
     return False
@@ -246,7 +251,7 @@ class Inliner(object):
                 given[p] = dflt[p]
         for p, a in given.items():
             assigned = p in locals_
-            if _atomic(a) and not assigned:
+            if _atomic(a, deep=h.expr_body is not None) and not assigned:
                 subst[p] = a
                 rename.pop(p, None)
             else:
@@ -644,6 +649,30 @@ class Dispatch(object):
                 if not hasattr(sub, 'lineno'):
                     ast.copy_location(sub, st)
             ast.fix_missing_locations(p)
+        # `a, b = __dispatchN` with every arm producing a pair: each arm assigns the components
+        if len(pre) == 1 and isinstance(st2, ast.Assign) and len(st2.targets) == 1 and isinstance(st2.targets[0], ast.Tuple) and isinstance(st2.value, ast.Name) \
+                and st2.value.id.startswith('__dispatch') and all(isinstance(t, ast.Name) for t in st2.targets[0].elts):
+            tmp = st2.value.id
+            arms = [n for n in ast.walk(pre[0]) if isinstance(n, ast.Assign) and isinstance(n.targets[0], ast.Name) and n.targets[0].id == tmp]
+            k = len(st2.targets[0].elts)
+            if arms and all(isinstance(a.value, ast.Tuple) and len(a.value.elts) == k for a in arms):
+                def split(stmts):
+                    out = []
+                    for x in stmts:
+                        if isinstance(x, ast.If):
+                            x.body = split(x.body)
+                            x.orelse = split(x.orelse)
+                            out.append(x)
+                        elif x in arms:
+                            for t, v in zip(st2.targets[0].elts, x.value.elts):
+                                out.append(ast.copy_location(ast.Assign(targets=[ast.Name(id=t.id, ctx=ast.Store())], value=v), st))
+                        else:
+                            out.append(x)
+                    return out
+                new = split([pre[0]])
+                for x in new:
+                    ast.fix_missing_locations(x)
+                return new[:-1], new[-1]
         # `v = __dispatchN` directly after the chain: fold the temporary into the chain's target
         if len(pre) == 1 and isinstance(st2, ast.Assign) and len(st2.targets) == 1 and isinstance(st2.targets[0], ast.Name) and isinstance(st2.value, ast.Name) \
                 and st2.value.id.startswith('__dispatch'):
@@ -654,6 +683,61 @@ class Dispatch(object):
             return [], pre[0]
         return pre, st2
 
+
+
+# ====================================================================================================== L3 / L4 small statement forms
+def split_tuple_assign(fn):
+    """a, b = (e1, e2)  ->  a = e1; b = e2   when no target is read by any of the values (so the order of evaluation does not matter)"""
+    n = [0]
+
+    def block(stmts):
+        out = []
+        for st in stmts:
+            for field in ('body', 'orelse', 'finalbody'):
+                b = getattr(st, field, None)
+                if isinstance(b, list) and b and isinstance(b[0], ast.stmt):
+                    setattr(st, field, block(b))
+            for hnd in getattr(st, 'handlers', []) or []:
+                hnd.body = block(hnd.body)
+            if isinstance(st, ast.Assign) and len(st.targets) == 1 and isinstance(st.targets[0], ast.Tuple) and isinstance(st.value, ast.Tuple) \
+                    and len(st.targets[0].elts) == len(st.value.elts) and all(isinstance(t, ast.Name) for t in st.targets[0].elts) \
+                    and not any(isinstance(v, ast.Starred) for v in st.value.elts):
+                tg = {t.id for t in st.targets[0].elts}
+                reads = {x.id for v in st.value.elts for x in ast.walk(v) if isinstance(x, ast.Name)}
+                if not (tg & reads):
+                    for t, v in zip(st.targets[0].elts, st.value.elts):
+                        a = ast.Assign(targets=[t], value=v)
+                        ast.copy_location(a, st)
+                        out.append(a)
+                    n[0] += 1
+                    continue
+            out.append(st)
+        return out
+    fn.body = block(fn.body)
+    return n[0]
+
+
+def propagate_child_aliases(fn):
+    """x = N.children[k]  (x bound once, N never rebound)  ->  every later read of x is N.children[k]"""
+    stores = {}
+    for n in ast.walk(fn):
+        if isinstance(n, ast.Name) and isinstance(n.ctx, (ast.Store, ast.Del)):
+            stores[n.id] = stores.get(n.id, 0) + 1
+    params = {a.arg for a in fn.args.posonlyargs + fn.args.args + fn.args.kwonlyargs}
+    aliases = {}
+    for st in fn.body:           # top-level statements only: the binding dominates everything after it
+        if isinstance(st, ast.Assign) and len(st.targets) == 1 and isinstance(st.targets[0], ast.Name) and stores.get(st.targets[0].id) == 1 \
+                and isinstance(st.value, ast.Subscript) and isinstance(st.value.slice, ast.Constant) and isinstance(st.value.slice.value, int) \
+                and isinstance(st.value.value, ast.Attribute) and st.value.value.attr == 'children' and isinstance(st.value.value.value, ast.Name) \
+                and st.value.value.value.id in params and stores.get(st.value.value.value.id, 0) == 0:
+            aliases[st.targets[0].id] = (st, st.value)
+    if not aliases:
+        return 0
+    drop = {id(v[0]) for v in aliases.values()}
+    fn.body = [st for st in fn.body if id(st) not in drop]
+    sub = _Subst({}, {k: v[1] for k, v in aliases.items()})
+    fn.body = [sub.visit(st) for st in fn.body]
+    return len(aliases)
 
 # ====================================================================================================== driver
 def lower_package(trees):
@@ -710,6 +794,35 @@ def lower_package(trees):
                         d = Dispatch(mt, ct)
                         d.function(s2)
                         stats['dispatch'] += d.count
+    # helper definitions that nothing refers to any more are gone from the program the rules see
+    if helpers and stats['inlined']:
+        refs = {}
+        for tree in trees.values():
+            for n in ast.walk(tree):
+                if isinstance(n, ast.Name) and isinstance(n.ctx, ast.Load):
+                    refs[n.id] = refs.get(n.id, 0) + 1
+                elif isinstance(n, ast.Attribute) and isinstance(n.ctx, ast.Load):
+                    refs[n.attr] = refs.get(n.attr, 0) + 1
+                elif isinstance(n, ast.alias):
+                    refs[n.name] = refs.get(n.name, 0) + 1
+                elif isinstance(n, ast.Constant) and isinstance(n.value, str):
+                    refs[n.value] = refs.get(n.value, 0) + 1
+        dead = {name for name in helpers if not refs.get(name)}
+        if dead:
+            for tree in trees.values():
+                tree.body = [st for st in tree.body if not (isinstance(st, ast.FunctionDef) and st.name in dead)]
+                for st in tree.body:
+                    if isinstance(st, ast.ClassDef):
+                        st.body = [s2 for s2 in st.body if not (isinstance(s2, ast.FunctionDef) and s2.name in dead)] or [ast.Pass()]
+        stats['removed'] = sorted(dead)
+    stats['tuple_assign'] = 0
+    stats['child_alias'] = 0
+    for tree in trees.values():
+        for st in tree.body:
+            fns = [st] if isinstance(st, ast.FunctionDef) else ([s2 for s2 in st.body if isinstance(s2, ast.FunctionDef)] if isinstance(st, ast.ClassDef) else [])
+            for fn in fns:
+                stats['tuple_assign'] += split_tuple_assign(fn)
+                stats['child_alias'] += propagate_child_aliases(fn)
     for tree in trees.values():
         ast.fix_missing_locations(tree)
     return stats
